@@ -46,9 +46,10 @@ def step (st : St) (line : String) : St × String :=
     | some k, some o => ({ st with view := some (o.step (if v = "-" then .del k else .set k v)).1 }, "ok")
     | _, _ => (st, "bad-op")
   | ["reset"] => ({ st with s := st.s.reset }, "ok")
-  | ["citer"] => (st, showKV st.s.iter)
+  -- range iteration lines cover the balance keys (< 100); the other kinds of keys are compared by point reads
+  | ["citer"] => (st, showKV (st.s.iter.filter (·.1 < 100)))
   | ["viter"] => match st.view with
-    | some o => (st, showKV (o.iter false none none))
+    | some o => (st, showKV ((o.iter false none none).filter (·.1 < 100)))
     | none => (st, "bad-op")
   | ["vget", k] => match k.toNat?, st.view with
     | some k, some o => (st, showV (o.get k))
